@@ -12,6 +12,9 @@ from .core import cq_bool, cq_list, cq_nat
 
 THEOREMS = ["C21_dump_accepted", "C21_prefix_eof", "C21_crash", "C21_crash_point", "C21_reader_partial",
             "C21_two_callers_partial", "C21_writer_two_readers_partial",
+            "C21_two_writers_single_write", "C21_hole_at_opcode_boundary", "C21_torn_same_stream_partial",
+            "C21_phase3_shape_sweep", "C21_torn_unaligned_refuted", "C21_mixture_refuted",
+            "C21_crash_codegen", "C21_codegen_old_order_refuted",
             "C21_fixed_routes", "C21_history_example", "C21_unrouted_refuted"]
 
 API = "/src/pymoca/backends/casadi/api.py"
@@ -198,12 +201,39 @@ def extract_tables(path):
     return t, problems
 
 
+def codegen_remove_first(path):
+    """fail-closed: True only if save_model removes the cache file (os.remove/os.unlink of the name that is later
+    opened for writing) in a statement that precedes the loop calling _codegen_model"""
+    tree = ast.parse(open(path).read())
+    fn = [n for n in tree.body if isinstance(n, ast.FunctionDef) and n.name == "save_model"]
+    if len(fn) != 1:
+        return False
+    body = fn[0].body
+    loop = [i for i, st in enumerate(body) if isinstance(st, (ast.For, ast.While)) and any(
+        isinstance(n, ast.Call) and ast.unparse(n.func) == "_codegen_model" for n in ast.walk(st))]
+    opens = [ast.unparse(n.args[0]) for st in body for n in ast.walk(st)
+             if isinstance(n, ast.Call) and ast.unparse(n.func) == "open" and n.args
+             and any("w" in ast.unparse(x) for x in n.args[1:2])]
+    if len(loop) != 1 or len(set(opens)) != 1:
+        return False
+    for st in body[:loop[0]]:
+        for n in ast.walk(st):
+            if (isinstance(n, ast.Call) and ast.unparse(n.func) in ("os.remove", "os.unlink") and n.args
+                    and ast.unparse(n.args[0]) == opens[0]):
+                # must not be guarded by anything but the codegen option itself
+                if isinstance(st, ast.If) and 'compiler_options["codegen"]' not in ast.unparse(st.test).replace("'", '"'):
+                    return False
+                return True
+    return False
+
+
 def gen_text(t):
     def hs(rows):
         return cq_list(["(%s, %s)" % (cq_list(k), a) for k, a in rows])
     return (PREAMBLE.replace("Require Import RunC21.Gen_C21.\n", "")
             + "(* generated from %s on every run *)\n" % API
-            + "Definition tbl : tables := Tables %s %s.\n" % (hs(t["load"]), hs(t["transfer"])))
+            + "Definition tbl : tables := Tables %s %s.\n" % (hs(t["load"]), hs(t["transfer"]))
+            + "Definition cg_remove_first : bool := %s.\n" % cq_bool(t.get("cg_remove_first", False)))
 
 
 TIE = PREAMBLE + """From PV Require Import Proofs.C21_crash Props.C21.
@@ -216,6 +246,12 @@ Theorem C21_crash_here (h : list op) : all_good tbl w0 h.
 Proof. exact (C21_crash tbl h tie_routes). Qed.
 Print Assumptions C21_crash_here.
 """ % MODEL_LEN
+
+TIE_CG = PREAMBLE + """From PV Require Import Proofs.C21_crash Proofs.C21_codegen Props.C21.
+(* the step order of save_model in codegen mode, extracted from api.py, is the one C21_crash_codegen is about *)
+Lemma tie_cg_order : cg_remove_first = true.
+Proof. vm_compute. reflexivity. Qed.
+"""
 
 
 # ---------------------------------------------------------------------------------------------
@@ -459,6 +495,31 @@ def run_codegen_scenario(ctx, sc):
     return None, None, res
 
 
+O_PLAIN = {"cache": True}
+O_RPV = {"cache": True, "replace_parameter_values": True}
+# A: load, open, 5 of 6 write calls...; see vlib/impl/c21.py do_torn for the step numbering
+TORN_SAME = {"kind": "torn", "n": 200, "oa": O_PLAIN, "ob": O_PLAIN, "schedule": "AB" + "AAAAA" + "BBBB" + "AAAAA"}
+TORN_DIFF = {"kind": "torn", "n": 200, "oa": O_PLAIN, "ob": O_RPV, "schedule": "AB" + "AAAAA" + "BBBBB" + "AAAAA"}
+
+
+def judge_torn(case, r):
+    if "readers" not in r:
+        return "harness:torn", json.dumps(r)[:300]
+    same = case["oa"] == case["ob"]
+    kind = "same-options" if same else "different-options"
+    for nm in ("rA", "rB", "fA", "fB"):
+        x = r["readers"].get(nm) or r["final"].get(nm)
+        when = "at the torn point" if nm[0] == "r" else "after both saves completed"
+        if x["out"] == "Raised":
+            return ("torn:%s:raised:%s" % (kind, x.get("exc")),
+                    "two concurrent saves (%s, %d write calls each) and a third transfer_model %s: raised %s: %s"
+                    % (kind, len(r["write_calls"]["A"]), when, x.get("exc"), x.get("msg")))
+        if not x.get("sig_ok"):
+            return ("torn:%s:wrong-model" % kind,
+                    "two concurrent saves (%s) and a third transfer_model %s: wrong model (%s)" % (kind, when, x["out"]))
+    return None, None
+
+
 def minimise(ctx, case, idx):
     """try the 3-op replay [transfer; cut k; transfer] / [crash; transfer] first, else the history prefix"""
     ops = case["ops"][:idx + 1]
@@ -507,6 +568,11 @@ def run(ctx):
         tables, problems = extract_tables(src)
     except Exception as e:  # noqa  (fail closed)
         tables, problems = {"load": [], "transfer": []}, ["probe failed: %r" % e]
+    try:
+        tables["cg_remove_first"] = codegen_remove_first(src)
+    except Exception as e:  # noqa
+        tables["cg_remove_first"] = False
+        problems.append("codegen order probe failed: %r" % e)
     ctx.notes["routing_tables"] = tables
     ctx.oblige("probe:exception-routing-extracted", not problems, "; ".join(problems))
 
@@ -520,6 +586,8 @@ def run(ctx):
         ok, out, err = core.coq_run(ctx, "Tie_C21", TIE)
         ctx.oblige("tie:routes_ok(extracted table) [side condition of C21_crash/C21_crash_point/C21_reader_partial]",
                    ok and "Closed under the global context" in out, (err or out)[-800:])
+        ok, out, err = core.coq_run(ctx, "TieCG_C21", TIE_CG)
+        ctx.oblige("tie:codegen save order = remove cache file first [side condition of C21_crash_codegen]", ok, err[-600:])
         ph["tie"] = round(time.time() - t0, 1)
 
     # ---- F: real pickle.load at every truncation offset (quick: every offset of one file, boundaries +
@@ -555,6 +623,10 @@ def run(ctx):
                 f_bad.append("%s/%d offset %d: %s" % (n, o, start, cls))
     ctx.oblige("F:pickle.load on every proper prefix raises EOFError/UnpicklingError (the model's EOF class), "
                "complete file loads", not f_bad, "; ".join(f_bad[:5]))
+    w_bad = ["%s/%d: %s" % (k[0], k[1], v.get("write_calls")) for k, v in info.items() if len(v.get("write_calls", [])) != 1
+             or v["write_calls"][0] != v["n"]]
+    ctx.oblige("W:save_model delivers the whole stream of these cache files in ONE write call "
+               "[assumption `whole` of C21_two_writers_single_write]", not w_bad, "; ".join(w_bad))
     ctx.notes["F_sweep"] = {"%s/%d" % k: {"n": v["n"], "frames": v["frames"], "rle": v["rle"][:12]} for k, v in info.items()}
 
     # ---- H: histories on the real transfer_model ---------------------------------------------
@@ -634,15 +706,34 @@ def run(ctx):
 
     ph["corr"] = round(time.time() - t0, 1)
     # broken tie / probe but no failing history found above: direct search on the offsets the tables speak about
-    # ---- codegen mode (thorough only: three gcc builds) -----------------------------------------------
-    if ctx.tier == "thorough":
+    # ---- torn files: two real saves with several write calls each, a third caller at a fixed point ------------
+    torn_cases = [dict(TORN_SAME), dict(TORN_DIFF)]
+    torn_res = core.run_child(ctx, "c21", torn_cases, timeout=1200)
+    ctx.notes["torn"] = [{"case": {k: c[k] for k in ("n", "oa", "ob", "schedule")}, "result": r} for c, r in zip(torn_cases, torn_res)]
+    for c, r in zip(torn_cases, torn_res):
+        tag, why = judge_torn(c, r)
+        if tag:
+            core.report(ctx, tag, why, {"input": c, "observed": r.get("readers", r)})
+
+    # ---- codegen mode: three gcc builds; thorough, or when the order side condition is broken --------------
+    cg_broken = any(n.startswith("tie:codegen") for n in ctx.broken)
+    if ctx.tier == "thorough" or cg_broken:
         tag, why, cres = run_codegen_scenario(ctx, CODEGEN_SCENARIO)
         ctx.notes["codegen_scenario"] = {"tag": tag, "results": cres}
         if tag:
             core.report(ctx, tag, why, {"input": CODEGEN_SCENARIO, "observed": cres[-1]})
+        if not (tag or "").startswith("harness"):
+            # correspondence with Model Part 4 on the extracted order: killed after [remove;] four libraries
+            j = 5 if tables.get("cg_remove_first") else 4
+            enc = "([CTransfer 1%%nat true; CCrashT 2%%nat true %d%%nat; CTransfer 1%%nat true], [[ORecompiled]; [ODied]; [%s]])" % (
+                j, OBS.get(cres[2].get("out"), "ORaised"))
+            bad = core.coq_eval_cases(ctx, "cg", PREAMBLE, "list cop * list (list obs)", [enc], "check_cg_case cg_remove_first tbl")
+            ctx.oblige("correspondence:codegen-model-vs-transfer_model", bad == [], "scenario %s" % enc)
 
     def still_fails(e):
         rp = e["replay"]
+        if rp.get("kind") == "torn":
+            return judge_torn(rp, core.run_child(ctx, "c21", [rp], timeout=1200)[0])[0] == e["tag"]
         if rp.get("kind") == "codegen-scenario":
             if ctx.tier != "thorough":
                 return None                      # three gcc builds: replayed in the thorough tier only
@@ -682,6 +773,10 @@ def run(ctx):
 def replay(ctx, path):
     rec = json.load(open(path))
     case = rec.get("input") or rec.get("replay")
+    if case.get("kind") == "torn":
+        tag, why = judge_torn(case, core.run_child(ctx, "c21", [case], timeout=1200)[0])
+        print("replay:", ("VIOLATED [%s] %s" % (tag, why)) if tag else "property holds on the torn-file scenario")
+        return 1 if tag else 0
     if case.get("kind") == "codegen-scenario":
         tag, why, _r = run_codegen_scenario(ctx, case)
         print("replay:", ("VIOLATED [%s] %s" % (tag, why)) if tag else "property holds on the codegen scenario")
